@@ -70,6 +70,14 @@ theorem replace_with_one_effect {h h' : Heap} {x y p : Nat} (hg : Good2 h) (hp :
     (∀ n, n ≠ p → h'.kids n = ((h.kids n).erase x).erase y) ∧ h'.parent x = none ∧ h'.parent y = some p :=
   replaceWith_one_effect hg hp hy hxy hyp hr
 
+/-- **unwrap()**: the element is replaced by its children, in order, exactly at its slot; it comes back detached and
+    childless; every child's parent is now the former parent; nothing else moves -/
+theorem unwrap_effect {h h' : Heap} {x p : Nat} {pre post : List Nat} (hg : Good2 h) (hp : h.parent x = some p)
+    (hk : h.kids p = pre ++ x :: post) (hu : unwrap h x = .ok h') :
+    Good2 h' ∧ h'.kids p = pre ++ h.kids x ++ post ∧ h'.kids x = [] ∧ h'.parent x = none ∧
+    (∀ n, n ≠ p → n ≠ x → h'.kids n = h.kids n) ∧ (∀ c ∈ h.kids x, h'.parent c = some p) :=
+  BS.Heap.unwrap_effect hg hp hk hu
+
 /-! ### witness: the slot arithmetic before the repair breaks contiguity
 
 `a = t0` with children `[b,c,d,e] = [1,2,3,4]`; `a.insert(1, e, b, d)`: documented result `[e,b,d,c]`. -/
